@@ -349,16 +349,16 @@ def run_c12(tier: str) -> int:
     rep.cov["states"] = states
     rep.cov["transitions"] = trans
     rep.cov["spec_mutation_rejected"] = "CacheAbsent=TRUE -> %s violated" % rm.violated
-    nsim = 120 if tier == "quick" else 3000
+    nsim = 120 if tier == "quick" else 1500
     tasks = []
     for cap in caps:
         for kind in ("local", "memory"):
             hs = gen_simulated(cap, kind, 14, nsim, seed + cap, "g12_%s_%d" % (kind, cap))
             if cap == 1 and (kind == "local" or tier == "thorough"):
                 ex = gen_exhaustive(cap, kind, 3 if tier == "quick" else 4, "g12e_" + kind)
-                # depth 4 gives ~100 k sequences per store kind: every third one (gc.collect() after
+                # depth 4 gives ~100 k sequences per store kind: one in ten (gc.collect() after
                 # every fetch makes a replay slow; the full set took over an hour)
-                hs += ex if tier == "quick" else ex[(seed % 3):: 3]
+                hs += ex if tier == "quick" else ex[(seed % 10):: 10]
             for (i, h) in enumerate(hs):
                 ps = list(PATHSETS)[1]
                 tasks.append((kind, cap, h, ps, kind == "local"))   # wrapped
